@@ -90,9 +90,78 @@ def run(props: Optional[List[str]], repo_root: str = "/repo", jobs: int = 16, ve
     return (1 if counts["FAIL"] else 0), counts
 
 
+def _seed_overrides(repo_root: str, patch_path: str) -> Optional[Dict[str, str]]:
+    """Apply a seeded patch to a throw-away copy of the files it touches and return
+    {relative path: patched text}; None when the patch no longer applies to the current tree.
+
+    The copy lives in a temporary directory outside /repo and /verif and is removed at once."""
+    import re
+    import shutil
+    import subprocess
+    import tempfile
+
+    text = open(patch_path, encoding="utf-8").read()
+    files = sorted(set(re.findall(r"^\+\+\+ b/(\S+)", text, flags=re.M)))
+    if not files:
+        return None
+    tmp = tempfile.mkdtemp(prefix="sa-seed-")
+    try:
+        for rel in files:
+            src = os.path.join(repo_root, rel)
+            if not os.path.exists(src):
+                return None
+            dst = os.path.join(tmp, rel)
+            os.makedirs(os.path.dirname(dst), exist_ok=True)
+            shutil.copy(src, dst)
+        # the copy is not a git repository: initialise a throw-away one so that `git apply` works there
+        env = dict(os.environ, GIT_DIR=os.path.join(tmp, ".git"), GIT_WORK_TREE=tmp)
+        subprocess.run(["git", "init", "-q", tmp], capture_output=True, text=True)
+        r = subprocess.run(["git", "apply", os.path.abspath(patch_path)], cwd=tmp, env=env, capture_output=True, text=True)
+        if r.returncode != 0:
+            return None
+        return {rel: open(os.path.join(tmp, rel), encoding="utf-8").read() for rel in files}
+    finally:
+        shutil.rmtree(tmp, ignore_errors=True)
+
+
+def run_seeds(prop: str, repo_root: str) -> Tuple[int, Dict[str, int]]:
+    """Every independently seeded breaking change of this property (/verif/seeded/<prop>-*) that
+    still applies to the current tree must be reported by the property's own check."""
+    import glob
+    import json
+
+    from .check import evaluate
+    from .report import VIOLATION, load_known
+
+    verif = os.path.dirname(os.path.dirname(os.path.abspath(__file__)))
+    counts = {"ok": 0, "FAIL": 0, "skipped": 0}
+    known = {(k["property"], k["key"]) for k in load_known().get("known", [])}
+    for d in sorted(glob.glob(os.path.join(verif, "seeded", f"{prop}-*"))):
+        patch = os.path.join(d, "patch.diff")
+        if not os.path.exists(patch):
+            continue
+        sid = os.path.basename(d)
+        ov = _seed_overrides(repo_root, patch)
+        if ov is None:
+            counts["skipped"] += 1
+            print(f"  seeded  skipped {sid}: patch does not apply to the current tree")
+            continue
+        status, obligations, msg = evaluate(prop, repo_root, ov)
+        hits = [o for o in obligations if o.status == VIOLATION and (prop, o.key) not in known]
+        if hits:
+            counts["ok"] += 1
+        else:
+            counts["FAIL"] += 1
+            print(f"  seeded  FAIL    {sid}: the seeded breaking change is not reported (status {status} {msg[:200]})")
+    print(f"[seeded] property={prop} changes={sum(counts.values())} reported={counts['ok']} missed={counts['FAIL']} skipped={counts['skipped']}")
+    return (1 if counts["FAIL"] else 0), counts
+
+
 def run_for_property(prop: str, jobs: int = 16) -> int:
-    code, _ = run([prop], os.environ.get("SA_REPO", "/repo"), jobs)
-    return code
+    root = os.environ.get("SA_REPO", "/repo")
+    code, _ = run([prop], root, jobs)
+    code2, _ = run_seeds(prop, root)
+    return code or code2
 
 
 def main(argv=None) -> int:
